@@ -249,15 +249,25 @@ func (c *vConc) run(sched []int) bool {
 	for {
 		c.refresh()
 		progress, left := false, 0
+		// one operation per round; an operation parked in front of a write acquisition goes first: when the schedule ended in
+		// a state where the model sees nobody enabled, a writer that really blocks on an RWMutex held by a reader is what turns
+		// a second RLock of that reader into a deadlock (sync.RWMutex: a pending writer blocks new readers)
+		var next *vProc
 		for _, p := range c.procs {
 			if p.fn == nil || p.state == "done" {
 				continue
 			}
 			left++
 			if p.state == "" || p.state == "gate" {
-				c.step(p)
-				progress = true
+				atW := p.state == "gate" && len(p.lks) > 0 && p.lks[len(p.lks)-1].A == "acq" && p.lks[len(p.lks)-1].K == "W"
+				if next == nil || (atW && !(next.state == "gate" && len(next.lks) > 0 && next.lks[len(next.lks)-1].A == "acq" && next.lks[len(next.lks)-1].K == "W")) {
+					next = p
+				}
 			}
+		}
+		if next != nil {
+			c.step(next)
+			progress = true
 		}
 		if left == 0 {
 			break
